@@ -13,6 +13,7 @@
 #![allow(dead_code, unused_imports)]
 
 use super::super::*;
+use super::super::grpc;
 
 #[path = "/verif/harness/common/sexp.rs"]
 mod sexp;
@@ -101,6 +102,7 @@ enum Ev {
     Force,
     Disable,
     Enable,
+    Wait,
 }
 
 fn reason_of(t: &Term) -> Option<Reason> {
@@ -132,6 +134,7 @@ fn ev_of(t: &Term) -> Option<Ev> {
         Some("force") => return Some(Ev::Force),
         Some("disable") => return Some(Ev::Disable),
         Some("enable") => return Some(Ev::Enable),
+        Some("wait") => return Some(Ev::Wait),
         Some(_) => return None,
         None => {}
     }
@@ -146,20 +149,14 @@ fn ev_of(t: &Term) -> Option<Ev> {
                     if g.len() != 2 {
                         return None;
                     }
-                    Some((fams_ne_of(&g[0])?, g[1].as_bool()?))
+                    Some((fams_of(&g[0])?, g[1].as_bool()?))
                 }
             };
             let llgr = match opt_of(&l[3])? {
                 None => None,
-                Some(g) => Some(fams_ne_of(g)?),
+                Some(g) => Some(fams_of(g)?),
             };
             let fams = fams_of(&l[1])?;
-            // negotiated GR / LLGR families are families of the session
-            if !gr.iter().all(|(g, _)| g.iter().all(|f| fams.contains(f)))
-                || !llgr.iter().all(|g| g.iter().all(|f| fams.contains(f)))
-            {
-                return None;
-            }
             Some(Ev::Est {
                 fams,
                 gr,
@@ -202,6 +199,13 @@ struct World {
     addr: IpAddr,
     context: Arc<std::sync::Mutex<PeerContext>>,
     session: Option<PeerSession>,
+    /// restart time / LLGR stale time advertised by the peer (seconds)
+    restart_secs: u16,
+    llgr_secs: u32,
+    /// the REAL gRPC service on the same `Global` / `TableManager` (shutdown / disable / enable)
+    svc: grpc::GrpcService,
+    /// receiving end of the live session's close channel (`ConnArbiter.passive_close_tx`)
+    close_rx: Option<tokio::sync::oneshot::Receiver<CloseReason>>,
 }
 
 fn peer_params(remote_addr: IpAddr) -> PeerParams {
@@ -318,6 +322,7 @@ async fn session_down(w: &mut World, reason: &Reason) {
     let Some(mut s) = w.session.take() else {
         return;
     };
+    w.close_rx = None;
     let disconnect = DisconnectInfo {
         role: s.role,
         remote_addr: s.remote_addr,
@@ -331,18 +336,22 @@ async fn session_down(w: &mut World, reason: &Reason) {
     let _ = apply_disconnect(&w.context, w.addr, &w.tables, info).await;
 }
 
-async fn force_down(w: &mut World) {
-    // `force_down` wakes the timer tasks; a live session is told to close and terminates with
-    // SessionDownReason::AdminShutdown (run_select maps every CloseReason to it).
-    w.context
-        .lock()
-        .unwrap()
-        .force_down(CloseReason::AdminShutdown, false);
+/// After an operator action that calls `PeerContext::force_down`: the timer tasks it woke run, and a
+/// live session that was told to close terminates.  `run_select` maps every `CloseReason` to
+/// `SessionDownReason::AdminShutdown` (3 lines transcribed: it needs a TCP stream); the session is
+/// only ended here if the close reason really arrived on its channel.
+async fn after_force(w: &mut World) {
     settle().await;
-    session_down(w, &Reason::Admin).await;
+    let told = w
+        .close_rx
+        .as_mut()
+        .is_some_and(|rx| rx.try_recv().is_ok());
+    if told {
+        session_down(w, &Reason::Admin).await;
+    }
 }
 
-async fn run_glue(evs: Vec<Ev>) -> String {
+async fn run_glue(evs: Vec<Ev>, short: bool) -> String {
     let (tx, _rx) = mpsc::unbounded_channel();
     let (bfd_tx, _bfd_rx) = mpsc::unbounded_channel();
     let mut g = Global::new(tx, bfd_tx);
@@ -352,43 +361,68 @@ async fn run_glue(evs: Vec<Ev>) -> String {
     g.add_peer(peer_params(addr), None).unwrap();
     let context = Arc::clone(&g.peers.get(&addr).unwrap().context);
     let global: GlobalHandle = Arc::new(tokio::sync::RwLock::new(g));
+    let tables: TableHandle = Arc::new(TableManager::new(2));
+    let (active_conn_tx, _active_conn_rx) = mpsc::unbounded_channel();
+    let svc = grpc::GrpcService::new(
+        Arc::new(tokio::sync::Notify::new()),
+        active_conn_tx,
+        global.clone(),
+        tables.clone(),
+    );
     let mut w = World {
         global,
-        tables: Arc::new(TableManager::new(2)),
+        tables,
         addr,
         context,
         session: None,
+        // short mode: timers really elapse during a `wait` event (1.25 s of real time)
+        restart_secs: if short { 1 } else { 3600 },
+        llgr_secs: if short { 1 } else { 7200 },
+        svc,
+        close_rx: None,
     };
     let mut steps = Vec::new();
     for ev in evs {
         match ev {
             Ev::Est { fams, gr, llgr, lr } => {
                 if w.session.is_none() {
+                    // The REAL establishment path: `apply_outputs` on the FSM's
+                    // SessionNegotiated + SessionEstablished outputs (negotiate_gr / negotiate_llgr on the
+                    // capabilities, on_established creating one Source per session family), then
+                    // `process_effects` on the effects it returns.
                     let mut s =
                         PeerSession::new_for_test(w.addr, w.context.clone(), w.tables.clone());
-                    for f in &fams {
-                        s.source.entry(fam_of(*f)).or_insert_with(|| {
-                            Arc::new(table::Source::new(
-                                w.addr,
-                                "127.0.0.1".parse().unwrap(),
-                                65002,
-                                65001,
-                                Ipv4Addr::new(10, 0, 0, 2),
-                                PeerRole::Ebgp,
-                            ))
+                    let all: Vec<Family> = (0..MAX_FAM).map(fam_of).collect();
+                    let mut local_cap: Vec<packet::Capability> = all
+                        .iter()
+                        .map(|f| packet::Capability::MultiProtocol(*f))
+                        .collect();
+                    local_cap.push(packet::Capability::GracefulRestart {
+                        flags: 0x4,
+                        restart_time: 120,
+                        families: all.iter().map(|f| (*f, 0)).collect(),
+                    });
+                    local_cap.push(packet::Capability::LongLivedGracefulRestart(
+                        all.iter().map(|f| (*f, 0, w.llgr_secs)).collect(),
+                    ));
+                    s.local_cap = local_cap.clone();
+                    let mut remote_cap: Vec<packet::Capability> = fams
+                        .iter()
+                        .map(|f| packet::Capability::MultiProtocol(fam_of(*f)))
+                        .collect();
+                    if let Some((fs, nbit)) = &gr {
+                        remote_cap.push(packet::Capability::GracefulRestart {
+                            flags: if *nbit { 0x4 } else { 0 },
+                            restart_time: w.restart_secs,
+                            families: fs.iter().map(|f| (fam_of(*f), 0)).collect(),
                         });
                     }
-                    s.negotiated_gr = gr.map(|(fs, nbit)| NegotiatedGr {
-                        families: fs.iter().map(|f| fam_of(*f)).collect(),
-                        restart_time: Duration::from_secs(3600),
-                        notification_enabled: nbit,
-                    });
-                    s.negotiated_llgr = llgr.map(|fs| NegotiatedLlgr {
-                        families: fs
-                            .iter()
-                            .map(|f| (fam_of(*f), Duration::from_secs(7200)))
-                            .collect(),
-                    });
+                    if let Some(fs) = &llgr {
+                        remote_cap.push(packet::Capability::LongLivedGracefulRestart(
+                            fs.iter().map(|f| (fam_of(*f), 0, w.llgr_secs)).collect(),
+                        ));
+                    }
+                    let codec = bgp::PeerCodec::negotiate(&local_cap, &remote_cap);
                     // local speaker itself in selection deferral?
                     w.global.write().await.selection_deferral = if lr {
                         let mut m: FnvHashMap<IpAddr, Vec<Family>> = FnvHashMap::default();
@@ -397,19 +431,44 @@ async fn run_glue(evs: Vec<Ev>) -> String {
                     } else {
                         None
                     };
-                    let negotiated_gr = s.negotiated_gr.clone();
-                    s.process_effects(
-                        vec![GlobalEffect::GrSessionEstablished { negotiated_gr }],
-                        &w.global,
-                    )
-                    .await;
+                    let role = s.role;
+                    let sa: SocketAddr = "127.0.0.1:179".parse().unwrap();
+                    let ra: SocketAddr = SocketAddr::new(w.addr, 40000);
+                    let (_, effects) = s
+                        .apply_outputs(
+                            vec![
+                                crate::fsm::PeerFsmOutput::Connection(
+                                    role,
+                                    crate::fsm::Output::SessionNegotiated(codec),
+                                ),
+                                crate::fsm::PeerFsmOutput::Connection(
+                                    role,
+                                    crate::fsm::Output::SessionEstablished {
+                                        remote_asn: 65002,
+                                        remote_id: u32::from(Ipv4Addr::new(10, 0, 0, 2)),
+                                        remote_holdtime: 90,
+                                        remote_capabilities: remote_cap,
+                                        effective_max: FnvHashMap::default(),
+                                    },
+                                ),
+                            ],
+                            sa,
+                            ra,
+                        )
+                        .await;
+                    s.process_effects(effects, &w.global).await;
                     w.global.write().await.selection_deferral = None;
+                    // accept_connection gives every live session a close channel in the arbiter
+                    let (ctx_tx, ctx_rx) = tokio::sync::oneshot::channel::<CloseReason>();
+                    s.conn_arbiter.lock().unwrap().passive_close_tx = Some(ctx_tx);
+                    w.close_rx = Some(ctx_rx);
                     w.session = Some(s);
                 }
             }
             Ev::Ann(f, n, nl, lc) => {
-                if let Some(s) = &w.session
-                    && let Some(src) = s.source.get(&fam_of(f))
+                // the REAL `rx_update` (loop checks, import policy, prefix limit, insert_route)
+                if let Some(s) = &mut w.session
+                    && s.source.contains_key(&fam_of(f))
                 {
                     let mut comm: Vec<u8> = Vec::new();
                     if nl {
@@ -425,15 +484,12 @@ async fn run_glue(evs: Vec<Ev>) -> String {
                                 .unwrap(),
                         );
                     }
-                    w.tables.insert_route(
-                        src.clone(),
-                        fam_of(f),
-                        packet::PathNlri::new(net_of(f, n)),
-                        Some(bgp::Nexthop::V4(Ipv4Addr::new(10, 0, 0, 2))),
-                        Arc::new(attrs),
-                        None,
-                        0,
-                    );
+                    let reach = bgp::ReachNlri {
+                        family: fam_of(f),
+                        entries: vec![packet::PathNlri::new(net_of(f, n))],
+                        nexthop: Some(bgp::Nexthop::V4(Ipv4Addr::new(10, 0, 0, 2))),
+                    };
+                    let _ = s.rx_update(Some(reach), None, Arc::new(attrs), 0).await;
                 }
             }
             Ev::Eor(f) => {
@@ -450,62 +506,88 @@ async fn run_glue(evs: Vec<Ev>) -> String {
             }
             Ev::Down(r) => session_down(&mut w, &r).await,
             Ev::Attempt => {
-                let info = DisconnectInfo {
+                // a connection that never reached Established ends: the REAL `finish_session`
+                // (no sources, nothing negotiated) then the REAL `apply_disconnect`
+                let saved = w.context.lock().unwrap().conn_arbiter.clone();
+                let mut s2 = PeerSession::new_for_test(w.addr, w.context.clone(), w.tables.clone());
+                w.context.lock().unwrap().conn_arbiter = saved; // new_for_test installs a fresh arbiter
+                s2.role = crate::fsm::Role::Active;
+                let disconnect = DisconnectInfo {
                     role: crate::fsm::Role::Active,
                     remote_addr: w.addr,
                     export_map: ExportMap::default(),
                     negotiated_gr: None,
                     negotiated_llgr: None,
                 };
+                let info = s2
+                    .finish_session(crate::fsm::SessionDownReason::IoError, &w.global, disconnect)
+                    .await;
                 let _ = apply_disconnect(&w.context, w.addr, &w.tables, info).await;
             }
             Ev::GrTimer => {
-                // the timer fires: same wake-up as `fire_gr_timer`
+                // the restart time elapses: the sender is dropped (the task's `timeout` wrapper is
+                // exercised by `wait` in short mode) and the REAL expiry handler runs, not forced
                 let armed = gr_armed(&w.context.lock().unwrap());
                 if armed {
-                    w.context.lock().unwrap().fire_gr_timer();
+                    w.context.lock().unwrap().gr_restart_timer.take();
+                    gr_restart_timer_expired(w.context.clone(), w.tables.clone(), w.addr, false).await;
                     settle().await;
                 }
             }
             Ev::LlgrTimer(f) => {
-                let tx = {
+                let armed = {
                     let mut ctx = w.context.lock().unwrap();
                     if ctx
                         .llgr_family_timers
                         .get(&fam_of(f))
                         .is_some_and(|tx| !tx.is_closed())
                     {
-                        ctx.llgr_family_timers.remove(&fam_of(f))
+                        ctx.llgr_family_timers.remove(&fam_of(f));
+                        true
                     } else {
-                        None
+                        false
                     }
                 };
-                if let Some(tx) = tx {
-                    let _ = tx.send(());
+                if armed {
+                    llgr_timer_expired(w.context.clone(), w.tables.clone(), w.addr, fam_of(f)).await;
                     settle().await;
                 }
             }
-            Ev::Force => force_down(&mut w).await,
+            Ev::Wait => {
+                // short mode only: every armed timer (1 s) elapses for real
+                tokio::time::sleep(Duration::from_millis(1250)).await;
+                settle().await;
+            }
+            Ev::Force => {
+                // the REAL ShutdownPeer RPC (force_down(CloseReason::AdminShutdown, false))
+                let _ = w
+                    .svc
+                    .shutdown_peer(tonic::Request::new(api::ShutdownPeerRequest {
+                        address: w.addr.to_string(),
+                        ..Default::default()
+                    }))
+                    .await;
+                after_force(&mut w).await;
+            }
             Ev::Disable => {
-                let was = {
-                    let mut g = w.global.write().await;
-                    let p = g.peers.get_mut(&w.addr).unwrap();
-                    let was = p.admin_down;
-                    p.admin_down = true;
-                    was
-                };
-                if !was {
-                    force_down(&mut w).await;
-                }
+                // the REAL DisablePeer RPC (admin_down := true, force_down unless already down)
+                let _ = w
+                    .svc
+                    .disable_peer(tonic::Request::new(api::DisablePeerRequest {
+                        address: w.addr.to_string(),
+                        ..Default::default()
+                    }))
+                    .await;
+                after_force(&mut w).await;
             }
             Ev::Enable => {
-                w.global
-                    .write()
-                    .await
-                    .peers
-                    .get_mut(&w.addr)
-                    .unwrap()
-                    .admin_down = false;
+                let _ = w
+                    .svc
+                    .enable_peer(tonic::Request::new(api::EnablePeerRequest {
+                        address: w.addr.to_string(),
+                        ..Default::default()
+                    }))
+                    .await;
             }
         }
         steps.push(observe(&w));
@@ -588,15 +670,19 @@ fn run_case(line: &str) -> String {
     let Some(t) = Term::parse(line) else {
         return "(bad-case)".into();
     };
-    if let Some(evs) = t.tagged("glue") {
+    let short = t.tagged("glue-short").is_some();
+    if let Some(evs) = t.tagged("glue").or(t.tagged("glue-short")) {
         let Some(evs) = evs.iter().map(ev_of).collect::<Option<Vec<_>>>() else {
             return "(bad-case)".into();
         };
+        if !short && evs.iter().any(|e| matches!(e, Ev::Wait)) {
+            return "(bad-case)".into();
+        }
         let rt = tokio::runtime::Builder::new_current_thread()
             .enable_time()
             .build()
             .unwrap();
-        rt.block_on(run_glue(evs))
+        rt.block_on(run_glue(evs, short))
     } else if let Some(ins) = t.tagged("pure") {
         let Some(ins) = ins.iter().map(gin_of).collect::<Option<Vec<_>>>() else {
             return "(bad-case)".into();
